@@ -458,3 +458,15 @@ theorem dispatchOf_second (id : OptId) : (dispatchOf id).map (·.second) = some 
   cases id <;> decide
 
 end Pc.Cli
+
+namespace Pc.Cli
+open Pc.Calc
+
+/-! stand-ins for the examples of PcProps/C13Cli.lean, C20Cli.lean -/
+
+/-- stand-in library: returns `1000 * x + a` so that the arguments are visible in the result -/
+def algDemo : CliAlg := fun _ c => some (1000 * c.x + (c.a.getD 0))
+def stodDemo : Bytes → Option AlphaArg := fun s => if s.isEmpty then none else some ⟨false, 2000⟩
+def run (args : List String) : CliRun := cliMain ⟨8, 8⟩ stodDemo algDemo (args.map ofStr)
+
+end Pc.Cli
